@@ -114,7 +114,7 @@ def judge(chk, case, o):
 
     for side in ("map", "enc", "dec", "dec_spec", "reenc"):
         if side in o and "panic" in o[side]:
-            report("panic:%s:%s" % (side, o[side]["panic"]["loc"].replace("/repo/", "")), "%s panics: %s" % (side, o[side]["panic"]["msg"]))
+            report("panic:%s:%s" % (side, lib.norm_loc(o[side]["panic"]["loc"])), "%s panics: %s" % (side, o[side]["panic"]["msg"]))
             return
     # ---- the signature itself
     if not case["valid"]:
